@@ -172,4 +172,27 @@ theorem hexCol_until (o : Opts) (W : Nat) (indent : List Char) (root : List UInt
   simp only [dataColumns, ht, ne_eq, not_false_eq_true, if_true]
   exact append_until _ _ _
 
+theorem addrText_length (o : Opts) (colW d a : Nat) (h : 2 * d + digitsNeeded o.addrbase a ≤ colW) :
+    (addrText o colW d a).length = colW + d := by
+  unfold addrText rootIndent
+  rw [List.length_append, List.length_replicate, padFormat_length]
+  omega
+
+theorem addrCell_eq (o : Opts) (colW d a : Nat) (h : 2 * d + digitsNeeded o.addrbase a ≤ colW) :
+    addrCell o colW d a = (addrText o colW d a).take colW := by
+  have hl := addrText_length o colW d a h
+  unfold addrCell
+  simp only
+  by_cases hd : d = 0
+  · subst hd
+    have : ¬ (addrText o colW 0 a).length > colW := by omega
+    rw [if_neg this]
+    have e : colW - (addrText o colW 0 a).length = 0 := by omega
+    rw [e, List.take_of_length_le (by omega)]
+    simp
+  · have : (addrText o colW d a).length > colW := by omega
+    rw [if_pos this, List.length_take]
+    have e : colW - min colW (addrText o colW d a).length = 0 := by omega
+    rw [e]; simp
+
 end Proofs.C10Dump
